@@ -180,6 +180,14 @@ func c03Check(ci interface{}) lib.Outcome {
 	if msg := c03WellFormed(cl, c.Thr, c.Corpus.files(), input, res); msg != "" {
 		return lib.Outcome{Violation: msg, Classes: classes}
 	}
+	// a result stays what it was: later calls (any classifier) must not reach into it
+	snapshot := resultString(res)
+	other := assets()[len(input)%len(assets())].Content
+	cl.Match(other)
+	classifierFor(0.8, smallFixedCorpus()).Match(other)
+	if resultString(res) != snapshot {
+		return lib.Outcome{Violation: fmt.Sprintf("the Results returned for the input changed after a later Match call on another input\nbefore:\n%safter:\n%s", snapshot, resultString(res)), Classes: classes}
+	}
 	nlic, ncr := 0, 0
 	for _, m := range res.Matches {
 		if m.MatchType == "Copyright" {
